@@ -239,6 +239,11 @@ def run_write_input(part, w, items, shape, cuts, case, tag=None):
             _viol(part, w, 'eof/true-before-item', 'EOF(1) true before item %d of %d; file %r' % (
                 i + 1, k, host[:80]), case)
             return
+        # LOF in the middle of reading (after EOF has looked ahead) reports the size and disturbs nothing
+        w.must(b'L9#=LOF(1)')
+        if s.get_variable('L9#') != len(host) and not tainted:
+            _viol(part, w, 'lof/while-reading', 'LOF(1)=%r before item %d but the file has %d bytes' % (
+                s.get_variable('L9#'), i + 1, len(host)), case)
         rn = b'R%d%s' % (i, b'$' if it[0] == 's' else it[1])
         r = w.run(b'INPUT#1,' + rn)
         if r.exc is not None:
